@@ -6,6 +6,7 @@ import (
 	"sort"
 	"strings"
 	"sync"
+	"testing"
 	"testing/synctest"
 
 	remoteexecution "github.com/bazelbuild/remote-apis/build/bazel/remote/execution/v2"
@@ -141,6 +142,19 @@ func (b gatedBase) ReplicateComposite(ctx context.Context, p, c digest.Digest, s
 
 func (b gatedBase) ReplicateMultiple(ctx context.Context, ds digest.Set) error {
 	return b.a.block("base", ctx, keysOf(ds)).err
+}
+
+// bubble runs f in a synctest bubble.  If goroutines of the code under test are still blocked
+// when f returns (after the drain cancelled every context), synctest panics; that is a finding,
+// not a crash of the harness.
+func bubble(t *testing.T, res *caseResult, f func(t *testing.T)) {
+	defer func() {
+		if p := recover(); p != nil {
+			res.fail("goroutines of the code under test stay blocked forever after all calls were released and all contexts cancelled",
+				fmt.Sprint(p))
+		}
+	}()
+	synctest.Test(t, f)
 }
 
 // ---------------------------------------------------------------- callers
